@@ -534,7 +534,7 @@ class Obl:
         nobody = {f for f in nobody if not f.startswith('nondet_vf_') and f not in s.get('allow_no_body', [])}
         if nobody:
             return self.undecided('unintended havoc: no body for ' + ','.join(sorted(nobody)))
-        nb = sorted({r.get('property', '').split('.no-body.')[1] for r in results if '.no-body.' in r.get('property', '')}
+        nb = sorted({r.get('property', '').split('.no-body.')[1] for r in results if '.no-body.' in r.get('property', '') and r.get('status') != 'SUCCESS'}
                     - set(s.get('allow_no_body', [])))
         if nb:
             return self.undecided('unintended havoc: no body for ' + ','.join(nb))
